@@ -105,6 +105,7 @@ func arithmeticFoundations(c *Ctx) {
 	}
 	erange.DeclareFieldRules(run, "RANGE-A", cfgs)
 	run.Rule("SIB-scan", "constant-time lookups scan every entry exactly once", 5)
+	exp := expRule(run, len(cfgs))
 	for _, id := range cfgs {
 		p := c.Prog(id)
 		run.SetConfig(id)
@@ -113,8 +114,9 @@ func arithmeticFoundations(c *Ctx) {
 		elin.CheckScalarPack(run, p, "LIN")
 		elin.CheckMul(run, p, "MUL")
 		esib.CheckMaskedScan(run, p, "SIB-scan")
+		checkExpAll(run, p, exp)
 	}
-	run.NotDecided = append(run.NotDecided, "arithmetic foundations: inversion/square-root chains, full reduction below L, the amd64/AVX2 assembly (see C04/C05/C06)")
+	run.NotDecided = append(run.NotDecided, "arithmetic foundations: full reduction below L, the amd64/AVX2 assembly (see C04/C05/C06)")
 }
 
 // groupFoundations: the exactness rules of the point arithmetic every primitive is built on — the
@@ -160,5 +162,32 @@ func transcriptFoundations(c *Ctx) {
 	}
 	if c.Preload("purego") {
 		checkKeccakSibling(c, run)
+	}
+}
+
+const expRuleDesc = "field inversion, the (p-5)/8 power, SqrtRatioI's candidate tests and scalar inversion raise/compare exactly the specified monomials (E-EXP: abstract interpretation in the exponent domain); SqrtRatioI selects, corrects and reports its root as specified"
+
+func expRule(run *report.Run, ncfg int) *report.Rule { return run.Rule("EXP-chain", expRuleDesc, 6*ncfg) }
+
+func checkExpAll(run *report.Run, p *load.Program, exp *report.Rule) {
+	s := checkExpChains(p, exp)
+	if run.Config() == load.QuickConfigs[1] || len(s) == 0 {
+		run.Sample(map[string]any{"EXP-chain": s})
+	}
+	edt.Check(exp, &edt.Config{P: p, Mod: modFor(p)}, sqrtRatioSpec())
+}
+
+// expFoundations: EXP-chain in every loaded configuration of the tier (the chains are plain Go in
+// all of them; the multiplications they call are never entered).
+func expFoundations(c *Ctx) {
+	run := c.Run
+	cfgs := c.Configs()
+	if !c.Preload(cfgs...) {
+		return
+	}
+	exp := expRule(run, len(cfgs))
+	for _, id := range cfgs {
+		run.SetConfig(id)
+		checkExpAll(run, c.Prog(id), exp)
 	}
 }
